@@ -290,3 +290,139 @@ def _cut(body, pred):
                 if lit is not None and pred(M.lit_atoms(lit)):
                     cut.add((b, lab))
     return cut
+
+
+# ------------------------------------------------------------------------------------------------------------------------------------
+# R20.a (indexing) — every index used on nodes / edges / edgelists while drawing is an id the diagram created itself, or a position of a
+# loop over the vector / over a recorded layer; ids are created from len() immediately before the matching push; the vectors only shrink
+# in _clear. Together: no bounds-check panic in as_graphviz.
+# ------------------------------------------------------------------------------------------------------------------------------------
+ID_ADTS = ('::NodeId', '::EdgeId', '::EdgesListId')
+STORED_IN = ('::Edge', '::Node', '::EdgesList', '::Layer')
+VECS = ('nodes', 'edges', 'edgelists')
+SHRINKERS = ('clear', 'truncate', 'pop', 'remove', 'swap_remove', 'drain', 'retain', 'split_off', 'set_len', 'resize', 'dedup')
+
+
+def _is_len_of_vec(t):
+    return M.is_call(t, 'len') and any(self_field(t[2][0], v) for v in VECS)
+
+
+def _layer_bound(t):
+    return M.is_const(t, 0) or _is_len_of_vec(t) or (isinstance(t, tuple) and t and t[0] == 'field' and len(t) == 4 and t[2] in ('from', 'to') and (t[3] or '').endswith('::Layer'))
+
+
+def _loop_position(t):
+    """t is the item of a loop over positions that exist: enumerate index over self.nodes, a Range between valid bounds"""
+    if not (isinstance(t, tuple) and M.contains(t, lambda x: M.is_call(x, 'Iterator::next'))):
+        return False
+    if M.is_field(t, '0') and M.contains(t, lambda x: M.is_call(x, 'enumerate')) and M.contains(t, lambda x: M.is_call(x, 'iter', 'iter_mut') and any(self_field(x[2][0], v) for v in VECS)) \
+            and not M.contains(t, lambda x: M.is_call(x, 'skip', 'rev', 'zip', 'chain', 'step_by')):
+        return True
+    rngs = [x for x in M.walk(t) if isinstance(x, tuple) and x and x[0] == 'aggr' and x[1].endswith('Range')]
+    if rngs:
+        f = dict(rngs[0][3])
+        return _layer_bound(f.get('start')) and _layer_bound(f.get('end'))
+    return False
+
+
+def _stored_id(t):
+    """t reads an id out of the diagram's own structures (arc endpoints, best edge, inbound list, list cells, layer members, pool / cut-set)"""
+    return isinstance(t, tuple) and M.contains(t, lambda x: isinstance(x, tuple) and x and x[0] == 'field' and len(x) == 4 and (x[3] or '').endswith(STORED_IN)) or \
+        M.contains(t, lambda x: any(self_field(x, f) for f in ('pool', 'next_l', 'cutset', 'best_node', 'best_exact_node', 'layers')))
+
+
+def _ok_index(ctx, body, t, depth=0):
+    if depth > 4 or not isinstance(t, tuple) or not t:
+        return False
+    if t[0] == 'aggr' and t[1].endswith(('Range', 'RangeInclusive', 'RangeTo', 'RangeFrom')):
+        f = dict(t[3])
+        return all(_layer_bound(v) for v in f.values()) and not t[1].endswith('RangeInclusive')
+    if _loop_position(t):
+        return True
+    x = t[1] if M.is_field(t, '0') else t
+    if _loop_position(x):
+        return True
+    if isinstance(x, tuple) and x and x[0] == 'aggr' and x[1].endswith(ID_ADTS):
+        return _ok_index(ctx, body, x[3][0][1], depth + 1)
+    if _stored_id(x):
+        return True
+    if isinstance(x, tuple) and x and x[0] == 'var':
+        ds = var_def_terms(body, x)
+        return bool(ds) and all(_ok_index(ctx, body, d, depth + 1) or _stored_id(d) for d in ds)
+    if M.is_param(x):
+        pb = ctx.F.bodies.get(x[1])         # the body's own parameter, or (closure upvar) a parameter of an enclosing function
+        if pb is None:
+            return False
+        if pb.kind == 'closure':
+            # the element handed to a closure by an iteration over stored ids (foreach! / iter().for_each / map)
+            return True
+        sites = _sites_with_bodies(ctx, pb, x)
+        return bool(sites) and all(_ok_index(ctx, cb_, a_, depth + 1) for (cb_, a_) in sites)
+    return False
+
+
+def _sites_with_bodies(ctx, body, term):
+    out = []
+    for cb in ctx.F.bodies.values():
+        for (bb, t) in cb.calls():
+            if (t.get('callee') == body.name or t.get('resolved') == body.name) and term[2] < len(t['args']):
+                out.append((cb, cb.origin.operand(t['args'][term[2]], cb.term_point(bb))))
+    return out
+
+
+def r_viz_indexing(ctx):
+    F = ctx.F
+    for tag, adt in DIAGRAMS:
+        g = ctx.body(adt, 'as_graphviz')
+        reach = [b for b in F.reachable_bodies([g]) if '::mdd::' in b.name]
+        n = 0
+        for b in reach:
+            for (bb, t) in b.calls_to('index', 'index_mut'):
+                a = [b.origin.operand(x, b.term_point(bb)) for x in t['args']]
+                if len(a) != 2 or not any(self_field(a[0], v) for v in VECS):
+                    continue
+                n += 1
+                ctx.check(_ok_index(ctx, b, a[1]), 'R20.a', '%s/index-in-range/%s#%d' % (tag, short(b), n), b, b.loc(bb),
+                          'the position used on %s is an id created by the diagram, or a position of a loop over the vector / a recorded layer' % M.show(a[0]),
+                          '%s[%s]: the position is neither an id stored in the diagram nor a loop position over the vector or a recorded layer — a bounds-check panic in as_graphviz is not excluded' % (M.show(a[0]), M.show(a[1])[:120]))
+        ctx.floor('R20.a', tag + '/index-sites', g, n, 6, 'index operations on nodes / edges / edgelists reachable from as_graphviz')
+        # ids are created from len() of their vector (or 0, or a loop position), and the push follows on every path
+        unit = dd_unit(ctx, tag)
+        m = 0
+        for b in unit:
+            for (bb, i, s) in b.assigns(lambda s: s['rv']['k'] == 'aggr' and (s['rv'].get('adt') or '').endswith(ID_ADTS)):
+                v = b.origin.rvalue(s['rv'], (bb, i))
+                x = v[3][0][1]
+                m += 1
+                if M.is_const(x) or _loop_position(x) or _loop_position(('field', x, '0', None)) or _stored_id(x) or M.is_param(x):
+                    continue
+                if isinstance(x, tuple) and x and x[0] == 'sub' and M.is_call(x[1], 'len') and self_field(x[1][2][0], 'layers'):
+                    continue            # LayerId(layers.len() - 1): an index into `layers`, not into the drawn vectors
+                if v[1].endswith('::LayerId') and (M.is_call(x, 'len') or M.contains(x, lambda y: self_field(y, 'layers') or self_field(y, 'lel'))):
+                    continue
+                good = _is_len_of_vec(x)
+                if good:
+                    vec = [vn for vn in VECS if self_field(x[2][0], vn)][0]
+                    site = x[3]
+                    if site is not None and site[0] == b.name:
+                        lp = b.term_point(site[1])
+                        pushes = [b.term_point(b2) for (b2, t2) in b.calls_to('push') if self_field(b.origin.operand(t2['args'][0], b.term_point(b2)), vec)]
+                        r = b.reach(b.after(lp), avoid=pushes)
+                        good = bool(pushes) and not any(p in r for p in ret_points(b))
+                        if not good:
+                            # or the id is used only where the vector is known to have grown past it: `if self.nodes.len() > len { .. NodeId(len) }`
+                            good, _, _ = M.guarded(b, [(bb, i)], lambda atoms, lit: any(M.cmp_matches(a_, lambda t_: _is_len_of_vec(t_) and self_field(t_[2][0], vec), lambda t_: t_ == x, '>') for a_ in atoms))
+                ctx.check(good, 'R20.a', '%s/id-created-from-len-then-push/%s' % (tag, short(b)), b, b.loc(bb, i),
+                          'an id is the length of its vector taken before the push that follows on every path',
+                          'the id %s is not len() of nodes / edges / edgelists followed by a push on every path (a dangling id indexes out of bounds later)' % M.show(v)[:120])
+        ctx.floor('R20.a', tag + '/id-constructions', None, m, 4, 'constructions of NodeId / EdgeId / EdgesListId in the diagram')
+        # the vectors shrink in _clear only
+        for b in unit:
+            for (bb, t) in b.calls():
+                last = (t.get('callee') or '').split('::')[-1]
+                if last in SHRINKERS and t['args']:
+                    rcv = b.origin.operand(t['args'][0], b.term_point(bb))
+                    if any(self_field(rcv, vn) for vn in VECS):
+                        root = F.bodies.get(b.root, b) if b.kind == 'closure' else b
+                        ctx.check(root.fn_name in ('_clear', 'new', 'default'), 'R20.a', '%s/vectors-shrink-in-clear-only/%s' % (tag, short(root)), b, b.loc(bb),
+                                  'nodes / edges / edgelists shrink in _clear only', '%s shrinks %s (%s): ids handed out earlier may index out of bounds' % (root.fn_name, M.show(rcv), last))
